@@ -1016,3 +1016,46 @@ package mast
 //@ ensures def [C05 C08 C14] (=> (= err anil) (= (bs.val result0) (EncNode H0 node)))
 //@ ensures healthy [C01] (=> healthy (= err anil))
 //@ loop 1 invariant acc [C05 C08 C14] (and (<= (- 1) rangeindex) (<= (+ rangeindex 1) (nlinks H0 node)) (lnkstep H0 (Node.Link H0 node) (+ rangeindex 1)) (= err anil) (= (bs.val buf) (cat (cat (cat (cat eps (encList H0 (Node.Key H0 node))) (encList H0 (Node.Value H0 node))) (uv (nlinks H0 node))) (encLinks H0 (Node.Link H0 node) (+ rangeindex 1)))))
+
+// ---------------------------------------------------------------------------------------
+// Decoding (C05, C19): the decoder is specified on arbitrary bytes (no precondition on the
+// buffer), so the same contracts give panic-freedom on undecodable input (C19) and, through the
+// algebra of cat/take/drop and uv, the round trip on the encoder's image (C05).
+//   toInt k     : int(uint64 k) as Go converts it
+//   dLen b      : the length prefix of the first element of b (as int)
+//   dBody b     : the body of the first element of b
+//   dRest b     : b after its first element
+//   dSkip b k   : b after k elements
+//@ smt (define-fun toInt ((k Int)) Int (ite (< k 9223372036854775808) k (- k 18446744073709551616)))
+//@ smt (define-fun dLen ((b Bytes)) Int (toInt (uvVal b)))
+//@ smt (define-fun dBody ((b Bytes)) Bytes (take (drop b (uvLen b)) (dLen b)))
+//@ smt (define-fun dRest ((b Bytes)) Bytes (drop (drop b (uvLen b)) (dLen b)))
+//@ smt (declare-fun dSkip (Bytes Int) Bytes)
+//@ smt (declare-fun dskipstep (Bytes Int) Bool)
+//@ theory dec
+//@ smt (assert (forall ((b Bytes)) (! (= (dSkip b 0) b) :pattern ((dSkip b 0)))))
+//@ smt (assert (forall ((b Bytes) (k Int)) (! (dskipstep b k) :pattern ((dskipstep b k)))))
+//@ smt (assert (forall ((b Bytes) (k Int)) (! (=> (>= k 0) (= (dSkip b (+ k 1)) (dRest (dSkip b k)))) :pattern ((dskipstep b k)))))
+//@ smt (assert (forall ((k Int) (r Bytes)) (! (=> (and (<= 0 k) (< k 18446744073709551616)) (and (= (uvVal (cat (uv k) r)) k) (= (uvLen (cat (uv k) r)) (blen (uv k))))) :pattern ((cat (uv k) r)))))
+//@ endtheory
+
+//@ abstract binary.Uvarint (buf) -> (k n)
+//@ pure
+//@ ensures ok (=> (> n 0) (and (= k (uvVal (bs.val buf))) (= n (uvLen (bs.val buf))) (<= n (blen (bs.val buf)))))
+
+//@ func decodeLength
+//@ tags C05 C14 C19
+//@ uses bytes
+//@ boxptr n
+//@ modifies W Box.Int
+//@ ensures ok [C05 C19] (=> (= err anil) (and (> (uvLen (bs.val buf)) 0) (<= (uvLen (bs.val buf)) (blen (bs.val buf))) (= (Box.Int H n) (dLen (bs.val buf))) (= (bs.val result0) (drop (bs.val buf) (uvLen (bs.val buf)))) (not (bs.nil result0))))
+//@ ensures frame [C05 C19] (forall ((b Int)) (! (=> (not (= b n)) (= (Box.Int H b) (Box.Int H0 b))) :pattern ((Box.Int H b))))
+
+//@ func decodeBytes
+//@ tags C05 C14 C19
+//@ uses bytes
+//@ boxptr body
+//@ modifies W Box.Int@fresh Box.BS
+//@ ensures empty [C05 C19] (=> (and (= err anil) (= (dLen (bs.val buf)) 0)) (and (= (Box.BS H body) (Box.BS H0 body)) (= (bs.val result0) (drop (bs.val buf) (uvLen (bs.val buf))))))
+//@ ensures body [C05 C19] (=> (and (= err anil) (not (= (dLen (bs.val buf)) 0))) (and (> (dLen (bs.val buf)) 0) (<= (dLen (bs.val buf)) (blen (drop (bs.val buf) (uvLen (bs.val buf))))) (= (Box.BS H body) (mkBS false (dBody (bs.val buf)))) (= (bs.val result0) (dRest (bs.val buf)))))
+//@ ensures frame [C05 C19] (forall ((b Int)) (! (=> (not (= b body)) (= (Box.BS H b) (Box.BS H0 b))) :pattern ((Box.BS H b))))
